@@ -19,7 +19,7 @@ from concurrent.futures import ThreadPoolExecutor
 import common
 import t_funccompile
 
-THEOREMS = ["Sympler.FuncCompile.C11_gen_order", "Sympler.FuncCompile.C11_isolation", "Sympler.FuncCompile.C11_progress",
+THEOREMS = ["Sympler.FuncCompile.C11_name_format", "Sympler.FuncCompile.C11_gen_order", "Sympler.FuncCompile.C11_isolation", "Sympler.FuncCompile.C11_progress",
             "Sympler.FuncCompile.C11_progress_all", "Sympler.FuncCompile.C11_progress_exists", "Sympler.FuncCompile.C11_coarse_refines",
             "Sympler.FuncCompile.C11_race_witness", "Sympler.FuncCompile.C11_race_witness_error", "Sympler.FuncCompile.C11_race_witness_coarse"]
 MODULES = ["Sympler.FuncCompile", "Sympler.FuncCompileLemmas", "Sympler.Gen.FuncCompileGen", "Props.C11"]
